@@ -28,6 +28,27 @@ def halt_violation(case, compiled, vm, dec, p, what):
                             observed=dict(kind=pc.kind, events=conc_events(pc.events), info=str(pc.info))))
 
 
+def wide_path_difference(case, cc, vm, dec, q, tries=4):
+    conds = list(q.conds)
+    for _ in range(tries):
+        m = dec.check(conds)
+        if m is None:
+            return None
+        argv = argv_for_compiled(cc, model_argv(vm, m), case.word)
+        pc = run_concrete_case(case.with_(unchecked=False), argv)
+        pu = run_concrete_case(case.with_(unchecked=True), argv)
+        if (pc.kind, conc_events(pc.events)) != (pu.kind, conc_events(pu.events)) and not is_fault_path(pc):
+            return dict(what='--unchecked changes the behaviour of a fault-free run', case=case.name,
+                        replay=dict(type='vm-events', src=case.src, word=case.word, stack=case.stack, unchecked=True,
+                                    argv=jsonable_argv(argv), expected=[conc_events(pc.events)], expected_kind=pc.kind,
+                                    observed=dict(kind=pu.kind, events=conc_events(pu.events), info=str(pu.info))))
+        block = [d() != m[d] for d in m.decls() if d.arity() == 0]
+        if not block:
+            return None
+        conds.append(z3.Or(*block))
+    return None
+
+
 def diff_task(task):
     """task['mode']: 'halt' (C03) or 'diff' (C15)"""
     mode = task.get('mode', 'diff')
@@ -96,7 +117,13 @@ def diff_task(task):
                     if v == 'infeasible':
                         st.discharged += 1
                     elif v is None:
-                        res['harness_errors'].append('%s: unchecked %s did not replay' % (case.name, q.kind))
+                        # the symbolic path stopped at an access whose address could not be enumerated: the inputs of this
+                        # path are replayed concretely on both builds (a few models), any difference is the violation
+                        v2 = wide_path_difference(case, cc, bc.vm, dec, q)
+                        if v2 is None:
+                            res['inconclusive'].append('%s: unchecked path %s (%s) could not be decided' % (case.name, q.kind, q.info))
+                        else:
+                            res['violations'].append(v2)
                     else:
                         res['violations'].append(v)
                     continue
